@@ -137,9 +137,18 @@ pub const EXTRA_ALGS: [&str; 5] = ["RS256", "PS256", "RS512", "PS384", "ES384"];
 
 pub fn extra_alg(name: &str) -> jsonwebtoken::Algorithm {
     use std::str::FromStr;
-    jsonwebtoken::Algorithm::from_str(name).expect("known algorithm")
+    jsonwebtoken::Algorithm::from_str(name.split('/').next().unwrap_or(name)).expect("known algorithm")
 }
+/// RSA issuer keys of other sizes than 2048 bits (signature segment 512 / 683 characters)
+pub const BIG_RSA: [&str; 2] = ["RS256/3072", "PS256/4096"];
+
 pub fn extra_enc(name: &str) -> EncodingKey {
+    if name == "RS256/3072" {
+        return EncodingKey::from_rsa_pem(include_str!("../keys/rsa3072_a.pem").as_bytes()).expect("rsa3072 key");
+    }
+    if name == "PS256/4096" {
+        return EncodingKey::from_rsa_pem(include_str!("../keys/rsa4096_a.pem").as_bytes()).expect("rsa4096 key");
+    }
     if name == "ES384" {
         EncodingKey::from_ec_pem(include_str!("../keys/es384_a.pem").as_bytes()).expect("es384 key")
     } else {
@@ -147,6 +156,12 @@ pub fn extra_enc(name: &str) -> EncodingKey {
     }
 }
 pub fn extra_dec(name: &str) -> DecodingKey {
+    if name == "RS256/3072" {
+        return DecodingKey::from_rsa_pem(include_str!("../keys/rsa3072_a.pub.pem").as_bytes()).expect("rsa3072 pub");
+    }
+    if name == "PS256/4096" {
+        return DecodingKey::from_rsa_pem(include_str!("../keys/rsa4096_a.pub.pem").as_bytes()).expect("rsa4096 pub");
+    }
     if name == "ES384" {
         DecodingKey::from_ec_pem(include_str!("../keys/es384_a.pub.pem").as_bytes()).expect("es384 pub")
     } else {
